@@ -213,6 +213,14 @@ func (e *Engine) bindParams(callee *ssa.Function, args []Val) map[string]Val {
 	return vars
 }
 
+// genericResultName: `result` / `result<i>` - valid in a contract whether or not the function names its results.
+func genericResultName(i, n int) string {
+	if n == 1 {
+		return "result"
+	}
+	return fmt.Sprintf("result%d", i)
+}
+
 func resultNames(fn *ssa.Function) []string {
 	sig := fn.Signature
 	var out []string
@@ -328,6 +336,7 @@ func (e *Engine) callContract(st *State, fr *Frame, callee *ssa.Function, c *Con
 		rv := e.freshVal("r_"+body0.Name()+"_"+names[i], t)
 		st.Assume(e.wellFormed(rv, st.next))
 		post[names[i]] = rv
+		post[genericResultName(i, sig.Results().Len())] = rv
 		res.L = append(res.L, rv.L...)
 		if sig.Results().Len() == 1 {
 			res = rv
@@ -803,6 +812,10 @@ func (e *Engine) execTypeAssert(st *State, fr *Frame, x *ssa.TypeAssert, pos str
 		}
 	}
 	tag := e.lay.TypeID(at)
+	if _, isTP := at.(*types.TypeParam); isTP {
+		// the (symbolic) id of a type parameter's type is the id of a type: never the tag 0 of the nil interface
+		st.Assume(Lt(IntLit(0), tag))
+	}
 	ok := Eq(iv.L[0], tag)
 	v := e.unbox(iv.L[1], at)
 	if x.CommaOk {
@@ -812,6 +825,8 @@ func (e *Engine) execTypeAssert(st *State, fr *Frame, x *ssa.TypeAssert, pos str
 			res.L = append(res.L, Ite(ok, v.L[i], z.L[i]))
 		}
 		res.L = append(res.L, ok)
+		// as below: when the dynamic type is T, the payload is the box of the asserted value
+		st.Assume(Implies(ok, Eq(e.box(Val{T: at, L: v.L}), iv.L[1])))
 		fr.regs[x] = res
 	} else {
 		e.obligationPanic(st, "type-assert", pos, ok)
